@@ -35,6 +35,8 @@ var Shapes07 = []Shape{
 	// times that drop and partly rise again: the index timestamp is a running maximum
 	{"3rec-nonmonotone", [][2]int{{1, 2}, {2, 1}, {1, 1}}, []int64{10, 5, 7}, 0, 0},
 	{"4rec-gap", [][2]int{{1, 1}, {2, 2}, {1, 3}, {3, 1}}, nil, 1, 0},
+	// the same with times that drop: the index the delete-rewrite leaves must still be the derived one
+	{"4rec-nonmonotone-gap", [][2]int{{1, 1}, {2, 2}, {1, 3}, {3, 1}}, []int64{10, 5, 7, 6}, 1, 0},
 	// a head with a non-zero base offset behind two sealed segments (which must not be touched)
 	{"3rec-base2", [][2]int{{1, 1}, {0, 2}, {2, 0}}, nil, 0, 2},
 	// bodies that cross the 255/256 length boundary
@@ -152,6 +154,8 @@ func Damages07(log, idx []byte, ver int, l Layout, recs []refcodec.Rec) []Damage
 	if ver == 2 {
 		hdr = 8
 	}
+	// the segment as the real writer (and delete-rewrite) left it: Check accepts it, Recover is a no-op
+	ds = append(ds, Damage{Desc: "no damage"})
 	// truncation to every length (0, or at/after the file header)
 	for L := 0; L < len(log); L++ {
 		if L > 0 && L < 8 {
